@@ -34,6 +34,35 @@ THEOREMS = [
     "MysticVerif.C19.set_center_mass",
     "MysticVerif.C19.set_range",
     "MysticVerif.C19.set_var",
+    # impose_measure (constraints.py l.1758-1826)
+    "MysticVerif.C19.impose_measure_frame",
+    "MysticVerif.C19.impose_measure_kept",
+    "MysticVerif.C19.impose_measure_noweight_zero",
+    "MysticVerif.C19.impose_measure_collapsed",
+    # update for every parameter length / every shape
+    "MysticVerif.C19.update_every_prefix",
+    "MysticVerif.C19.update_short_params_witness",
+    "MysticVerif.C19.update_any_shape",
+    "MysticVerif.C19.update_empty_factor_witness",
+    "MysticVerif.C19.supdate_every_prefix",
+    # the other deterministic statistics
+    "MysticVerif.C19.measure_expect_def",
+    "MysticVerif.C19.measure_support_def",
+    "MysticVerif.C19.measure_maximum_def",
+    "MysticVerif.C19.measure_minimum_def",
+    "MysticVerif.C19.measure_ess_maximum_def",
+    "MysticVerif.C19.measure_ess_minimum_def",
+    "MysticVerif.C19.measure_ptp_def",
+    "MysticVerif.C19.maximum_def",
+    "MysticVerif.C19.minimum_def",
+    "MysticVerif.C19.ess_maximum_def",
+    "MysticVerif.C19.ess_minimum_def",
+    "MysticVerif.C19.ptp_def",
+    "MysticVerif.C19.pof_value_def",
+    "MysticVerif.C19.mean_value_def",
+    "MysticVerif.C19.set_mean_value",
+    "MysticVerif.C19.set_center_masses",
+    "MysticVerif.C19.measure_normalize",
 ]
 
 RTOL = 1e-9
@@ -134,6 +163,8 @@ def gen_shape(rng, allow_zero=True, maxf=4):
     sizes = [rng.choice([1, 1, 2, 2, 3, 3, 4, 5]) for _ in range(nf)]
     if allow_zero and nf and rng.random() < 0.05:
         sizes[rng.randrange(nf)] = 0
+    if allow_zero and nf and rng.random() < 0.04:      # several zeros / ones (zeros in front, at the end, everywhere)
+        sizes = [rng.choice([0, 0, 1, 1, rng.choice([2, 3])]) for _ in range(nf)]
     return sizes
 
 
@@ -539,8 +570,19 @@ def case_update(spec):
     if r[0] != "ok":
         case.fail("update/raises", "update raised %s (params of length %d for shape %r)" % (r[1], len(params), sizes))
     elif len(params) >= L and any(n == 0 for n in sizes):
-        # outside the property's quantifier (factor sizes >= 1): `zo = pm.count([])` also counts a factor that is
-        # empty by SHAPE, so e.g. shape (0,1) keeps the old second factor.  Correspondence only (the model mirrors it).
+        # every shape (theorem update_any_shape): `zo = pm.count([])` also counts the factors that are empty by SHAPE, so
+        # with z empty factors the first len-z factors are exactly as given and the LAST z factors keep their old numbers
+        z = sum(1 for n in sizes if n == 0)
+        want = []; p = 0
+        for n in sizes:
+            want.append([list(params[p:p + n]), list(params[p + n:p + 2 * n])]); p += 2 * n
+        want = want[:len(sizes) - z] + [[list(m[0]), list(m[1])] for m in ms[len(sizes) - z:]]
+        if not same_pm(newpm, want):
+            case.fail("update/empty-factor-frame", "shape %r (z=%d): after update the measure is %r, expected first len-z factors "
+                      "as given and the last z unchanged: %r" % (sizes, z, newpm, want))
+        if all(n == 0 for n in sizes[len(sizes) - z:]):
+            case.tag("update:empty-factors-at-end")
+            case.nontrivial = sum(sizes) > 0
         case.tag("update:empty-factor-shape")
     elif len(params) >= L:
         # the property: exactly the addressed weights / positions (/ values) change, to the given numbers
@@ -549,16 +591,47 @@ def case_update(spec):
             want.append([list(params[p:p + n]), list(params[p + n:p + 2 * n])]); p += 2 * n
         if not same_pm(newpm, want):
             case.fail("update/addressed", "after update(params) the measure is %r, expected %r" % (newpm, want))
-        if spec["scenario"]:
-            nv = list(params[L:])
-            wv = nv[:len(vals)] + list(vals[len(nv):])
-            if not same_vec(newvals, wv):
-                case.fail("update/values", "after update the values are %r, expected %r (old %r, given %r)" % (newvals, wv, vals, nv))
         case.nontrivial = bool(sizes) and sum(sizes) > 0
         case.tag("update:full" if len(params) == L else "update:with-values")
+    elif all(n > 0 for n in sizes):
+        # every prefix length (theorem update_every_prefix): cut k = number of factors whose weights block is passed;
+        # factors >= k unchanged, fully covered factors exactly as given, a partly covered positions block is zipped short
+        P = len(params); want = []; off = 0; k = 0
+        for i, n in enumerate(sizes):
+            if off + n < P:
+                k = i + 1
+                w = list(params[off:off + n]); x = list(params[off + n:off + 2 * n])
+                want.append([w[:len(x)], x])
+            else:
+                want.append([list(ms[i][0]), list(ms[i][1])])
+            off += 2 * n
+        if len(newpm) != len(ms):
+            case.fail("update/prefix-factor-count", "update changed the number of factors: %d -> %d" % (len(ms), len(newpm)))
+        else:
+            for i in range(len(ms)):
+                if i >= k and not same_pm([newpm[i]], [ms[i]]):
+                    case.fail("update/prefix-frame", "len(params)=%d reaches only %d factor(s) of shape %r but factor %d changed: %r -> %r"
+                              % (P, k, sizes, i, ms[i], newpm[i])); break
+                if i < k and not same_pm([newpm[i]], [want[i]]):
+                    case.fail("update/prefix-addressed", "len(params)=%d, shape %r: factor %d is %r, expected %r"
+                              % (P, sizes, i, newpm[i], want[i])); break
+        case.nontrivial = k >= 1
+        case.tag("update:short-params")
+        case.tag("update:prefix-cut-%s" % ("0" if k == 0 else ("all" if k == len(sizes) else "inside")))
     else:
         case.tag("update:short-params")
-        # shape of the untouched tail is kept: measures that received nothing stay as they were
+        case.tag("update:short-params-empty-factor")
+    if spec["scenario"] and r[0] == "ok":
+        # values (theorem supdate_every_prefix), for every parameter length and shape: the list keeps its length, the first
+        # min(#surplus, #values) entries are replaced by the surplus parameters, the rest is kept
+        nv = list(params[L:])
+        wv = nv[:len(vals)] + list(vals[len(nv):])
+        if not same_vec(newvals, wv):
+            case.fail("update/values", "after update the values are %r, expected %r (old %r, given %r)" % (newvals, wv, vals, nv))
+        if nv and len(nv) < len(vals):
+            case.tag("update:partial-values")
+        elif len(nv) > len(vals):
+            case.tag("update:surplus-values")
     case.tag("update:scenario" if spec["scenario"] else "update:product_measure")
     return case
 
@@ -566,21 +639,39 @@ def case_update(spec):
 def gen_update(rng):
     exact = rng.random() < 0.5
     sizes = gen_shape(rng)
+    if rng.random() < 0.12 and sizes:              # shapes with empty factors in chosen places (front / end / middle)
+        z = rng.randint(1, 2)
+        where = rng.choice(["front", "end", "any"])
+        if where == "front":
+            sizes = [0] * z + sizes
+        elif where == "end":
+            sizes = sizes + [0] * z
+        else:
+            for _ in range(z):
+                sizes.insert(rng.randint(0, len(sizes)), 0)
     ms = gen_pm(rng, sizes, exact)
     L = 2 * sum(sizes)
     scen = rng.random() < 0.5
-    k = rng.random()
-    if k < 0.45:
-        n = L
-    elif k < 0.85:
-        n = L + rng.randint(1, 6)
-    else:
-        n = rng.randint(0, max(L - 1, 0))
-    params = gen_params(rng, n, exact)
     total = 1
     for s in sizes:
         total *= s
     vals = [gen_pos(rng, exact) for _ in range(rng.choice([0, total, total, rng.randint(0, 6)]))] if scen else []
+    k = rng.random()
+    if k < 0.35:
+        n = L
+    elif k < 0.55:
+        n = L + rng.randint(1, 6)
+    elif k < 0.70 and scen and len(vals) >= 2:
+        n = L + rng.randint(1, len(vals) - 1)          # partial update of the values: only the first k given
+    elif k < 0.80 and sizes:
+        # a prefix ending exactly at a block boundary (after a weights block / after a factor)
+        cuts = [0]; off = 0
+        for s in sizes:
+            cuts += [off + s, off + 2 * s]; off += 2 * s
+        n = rng.choice(cuts)
+    else:
+        n = rng.randint(0, max(L - 1, 0))
+    params = gen_params(rng, n, exact)
     return {"kind": "update", "exact": exact, "pm": ms, "params": params, "scenario": scen, "values": vals}
 
 
@@ -872,24 +963,33 @@ def case_impose(spec):
     from mystic.constraints import impose_measure
     case = Case(spec)
     npts = spec["npts"]; x = spec["x"]; exact = spec["exact"]
-    tracking = {int(k): set(tuple(p) for p in v) for k, v in spec["tracking"]}
-    noweight = {int(k): set(v) for k, v in spec["noweight"]}
+    L = 2 * sum(npts)
+    # `tracking` / `noweight` are one dict, or (when a second item list is present) a tuple of two dicts: the code visits
+    # the dicts in order and each dict's items in insertion order; the model gets the same sequence of (factor, selection)
+    tr_items = [list(spec["tracking"]), list(spec.get("tracking2", []))]
+    nw_items = [list(spec["noweight"]), list(spec.get("noweight2", []))]
+    mk_tr = lambda items: {int(k): set(tuple(p) for p in v) for k, v in items}
+    mk_nw = lambda items: {int(k): set(v) for k, v in items}
+    tracking = mk_tr(tr_items[0]) if not tr_items[1] else (mk_tr(tr_items[0]), mk_tr(tr_items[1]))
+    noweight = mk_nw(nw_items[0]) if not nw_items[1] else (mk_nw(nw_items[0]), mk_nw(nw_items[1]))
+    tr_seq = tr_items[0] + tr_items[1]; nw_seq = nw_items[0] + nw_items[1]
     xin = list(x)
     r = call(lambda: [float(v) for v in impose_measure(tuple(npts), tracking, noweight)(lambda z: z)(xin)])
     if xin != list(x):
         case.fail("aliasing/impose-mutates-input", "impose_measure changed its argument")
     # request: indices normalised (negative -> len+i), pairs grouped by their (shared) first index, members ascending
     tr = []
-    for k, pairs in spec["tracking"]:
+    for k, pairs in tr_seq:
         n = npts[k]; groups = {}
         for i, j in pairs:
             i = n + i if i < 0 else i; j = n + j if j < 0 else j
             groups.setdefault(i, set()).add(j)
         tr.append("(%d %s)" % (k, " ".join("(%d %s)" % (i, " ".join(str(j) for j in sorted(js))) for i, js in groups.items())))
     nw = []
-    for k, idx in spec["noweight"]:
+    for k, idx in nw_seq:
         n = npts[k]
-        nw.append("(%d %s)" % (k, " ".join(str(n + i if i < 0 else i) for i in idx)))
+        norm = [n + i if i < 0 else i for i in idx]
+        nw.append("(%d %s)" % (k, " ".join(str(i) for i in norm if i >= 0)))     # an index that stays negative selects nothing
     scale = max([1.0] + [abs(v) for v in x])
 
     def cmp(rep):
@@ -913,34 +1013,53 @@ def case_impose(spec):
         case.fail("impose/raises", "impose_measure raised %s on a well-formed input" % r[1])
         return case
     y = r[1]
-    if len(y) != len(x):
-        case.fail("impose/shape", "result has %d parameters, input %d" % (len(y), len(x)))
+    if len(y) != L:
+        case.fail("impose/shape", "result has %d parameters, the shape %r needs %d (input had %d)" % (len(y), npts, L, len(x)))
         return case
+    tr_count = {}; nw_count = {}
+    for k, _ in tr_seq:
+        tr_count[k] = tr_count.get(k, 0) + 1
+    for k, _ in nw_seq:
+        nw_count[k] = nw_count.get(k, 0) + 1
     p = 0
     for k, n in enumerate(npts):
         w0 = x[p:p + n]; x0 = x[p + n:p + 2 * n]; w1 = y[p:p + n]; x1 = y[p + n:p + 2 * n]; p += 2 * n
-        touched = k in tracking or k in noweight
+        touched = k in tr_count or k in nw_count
         if not touched:
+            # theorem impose_measure_frame: flatten -> impose -> unflatten only changes what it addresses
             if not (same_vec(w0, w1) and same_vec(x0, x1)):
                 case.fail("impose/untouched-factor-changed", "factor %d is not addressed but changed: %r -> %r" % (k, (w0, x0), (w1, x1)))
             continue
-        if not all(math.isfinite(v) for v in w1 + x1) or sum(w0) <= 0 or any(v < 0 for v in w0):
+        if sum(w0) <= 0 or any(v < 0 for v in w0) or not all(math.isfinite(v) for v in w0 + x0):
             case.tag("impose:degenerate"); continue
+        nz = lambda i: n + i if i < 0 else i
+        last_nw = [idx for kk, idx in nw_seq if kk == k]
+        last_nw = set(nz(i) for i in last_nw[-1]) if last_nw else set()
+        all_nw_ok = all(len(set(nz(i) for i in idx if 0 <= nz(i) < n)) < n for kk, idx in nw_seq if kk == k)
+        if not all_nw_ok:
+            case.tag("impose:noweight-covers-factor"); continue       # every point selected: nothing can carry the weight
+        if not all(math.isfinite(v) for v in w1 + x1):
+            # hypotheses of impose_measure_kept hold (non-negative weights of positive total, a point left outside
+            # every noweight selection): the result is a measure with the same total weight, in particular finite
+            case.fail("impose/not-finite", "factor %d: %r -> %r" % (k, (w0, x0), (w1, x1))); continue
         wq0 = [frac(v) for v in w0]; wq1 = [frac(v) for v in w1]
         tw0 = sum(wq0, Fraction(0)); tw1 = sum(wq1, Fraction(0))
-        nz = lambda i: n + i if i < 0 else i
-        # (with `noweight` on the same factor the documented "avoid null weights" rule may re-weight a collapsed
-        #  point, so the collapsed weights are only required to vanish when the factor has no `noweight` entry)
-        zero_idx = set(nz(i) for i in noweight.get(k, ()))
-        if k not in noweight:
-            zero_idx |= set(nz(j) for (_, j) in tracking.get(k, ()))
-        survivors = [i for i in range(n) if i not in set(nz(i2) for i2 in noweight.get(k, ()))]
-        for i in zero_idx:
-            if w1[i] != 0.0:
+        # theorem impose_measure_noweight_zero: the indices of the last noweight item on this factor carry no weight
+        for i in last_nw:
+            if 0 <= i < n and w1[i] != 0.0:
                 case.fail("impose/weight-not-removed", "factor %d: weight %d is %r, expected 0 (%r -> %r)" % (k, i, w1[i], w0, w1))
-        for (i, j) in tracking.get(k, ()):
-            if x1[nz(i)] != x1[nz(j)]:
-                case.fail("impose/positions-not-collapsed", "factor %d: positions %d and %d differ: %r" % (k, nz(i), nz(j), x1))
+        if any(v < 0 for v in w1):
+            case.fail("impose/negative-weight", "factor %d: non-negative weights %r became %r" % (k, w0, w1))
+        if tr_count.get(k, 0) == 1:
+            # theorem impose_measure_collapsed: paired positions coincide (also after noweight items); the removed
+            # weight is zero when no noweight item re-weights this factor
+            pairs = [pr for kk, prs in tr_seq if kk == k for pr in prs]
+            for (i, j) in pairs:
+                if x1[nz(i)] != x1[nz(j)]:
+                    case.fail("impose/positions-not-collapsed", "factor %d: positions %d and %d differ: %r" % (k, nz(i), nz(j), x1))
+                if k not in nw_count and w1[nz(j)] != 0.0:
+                    case.fail("impose/weight-not-removed", "factor %d: collapsed weight %d is %r, expected 0 (%r -> %r)" % (k, nz(j), w1[nz(j)], w0, w1))
+        # theorem impose_measure_kept: total weight and centre of mass of every factor
         if abs(tw1 - tw0) > Fraction(RTOL) * max(abs(tw0), Fraction(1)):
             case.fail("impose/total-weight-changed", "factor %d: total weight %r -> %r" % (k, float(tw0), float(tw1)))
         elif tw1 != 0:
@@ -949,22 +1068,24 @@ def case_impose(spec):
             if abs(m1 - m0) > Fraction(RTOL) * Fraction(scale):
                 case.fail("impose/mean-changed", "factor %d: weighted mean %r -> %r" % (k, float(m0), float(m1)))
             case.nontrivial = True
-    case.tag("impose:tracking" if tracking else "impose:no-tracking")
-    case.tag("impose:noweight" if noweight else "impose:no-noweight")
+    case.tag("impose:tracking" if tr_seq else "impose:no-tracking")
+    case.tag("impose:noweight" if nw_seq else "impose:no-noweight")
+    if tr_items[1] or nw_items[1]:
+        case.tag("impose:tuple-of-dicts")
+    if any(c > 1 for c in list(tr_count.values()) + list(nw_count.values())):
+        case.tag("impose:factor-addressed-twice")
+    if len(x) > L:
+        case.tag("impose:surplus-parameters")
+    if any(n == 1 for n in npts):
+        case.tag("impose:size-1-factor")
     case.tag("regime:exact" if exact else "regime:general")
     return case
 
 
-def gen_impose(rng):
-    exact = rng.random() < 0.5
-    sizes = [rng.choice([2, 3, 3, 4, 5]) for _ in range(rng.choice([1, 2, 2, 3]))]
-    x = []
-    for n in sizes:
-        m = gen_measure(rng, n, exact, positive=rng.random() < 0.8)
-        x += m[0] + m[1]
+def gen_impose_items(rng, sizes, ptr=0.5, pnw=0.5):
     tracking = []; noweight = []
     for k, n in enumerate(sizes):
-        if rng.random() < 0.5:
+        if n >= 2 and rng.random() < ptr:
             # order-independent pair sets only: a star (i,j1),(i,j2).. or disjoint pairs
             idx = list(range(n)); rng.shuffle(idx)
             if rng.random() < 0.5 or n < 4:
@@ -974,25 +1095,384 @@ def gen_impose(rng):
                 pairs = [[idx[0], idx[1]], [idx[2], idx[3]]]
             pairs = [[(a - n if rng.random() < 0.15 else a), (b - n if rng.random() < 0.15 else b)] for a, b in pairs]
             tracking.append([k, pairs])
-        if rng.random() < 0.5:
-            cnt = rng.randint(1, n - 1) if rng.random() < 0.9 else n
-            idx = rng.sample(range(n), cnt)
-            noweight.append([k, [(a - n if rng.random() < 0.15 else a) for a in idx]])
-    return {"kind": "impose", "exact": exact, "npts": sizes, "x": x, "tracking": tracking, "noweight": noweight}
+        if rng.random() < pnw:
+            cnt = rng.randint(1, max(n - 1, 1)) if rng.random() < 0.9 else n
+            idx = rng.sample(range(n), min(cnt, n))
+            idx = [(a - n if rng.random() < 0.15 else a) for a in idx]
+            if rng.random() < 0.1:
+                idx.append(rng.choice([n, n + 2, -n - 1]))        # out of range: selects nothing
+            noweight.append([k, idx])
+    rng.shuffle(tracking); rng.shuffle(noweight)                  # dict insertion order is not the factor order
+    return tracking, noweight
+
+
+def gen_impose(rng):
+    exact = rng.random() < 0.5
+    sizes = [rng.choice([1, 2, 3, 3, 4, 5]) for _ in range(rng.choice([1, 2, 2, 3, 4]))]
+    x = []
+    for n in sizes:
+        m = gen_measure(rng, n, exact, positive=rng.random() < 0.8)
+        if rng.random() < 0.1 and n >= 2:          # all the weight on one point: the "avoid null weights" rule can fire
+            m[0] = [0.0] * n; m[0][rng.randrange(n)] = 1.0 if exact else 0.25 + rng.random()
+        x += m[0] + m[1]
+    tracking, noweight = gen_impose_items(rng, sizes)
+    spec = {"kind": "impose", "exact": exact, "npts": sizes, "x": x, "tracking": tracking, "noweight": noweight}
+    if rng.random() < 0.2:                         # a tuple of two dicts: factors can be addressed twice
+        t2, n2 = gen_impose_items(rng, sizes, 0.3, 0.3)
+        spec["tracking2"] = t2; spec["noweight2"] = n2
+    if rng.random() < 0.15:                        # surplus parameters ("Y-values") are dropped
+        spec["x"] = x + [gen_pos(rng, exact) for _ in range(rng.randint(1, 3))]
+    return spec
+
+
+# ------------------------------------------------------------------ kind: stats2 (maximum/minimum/ptp/ess_*, measure-level
+# expect/support, product center_mass getter+setter, measure.normalize)
+def opt_tok(r):
+    """('ok', v) | ('err', enum)  ->  what the model prints: value | none"""
+    return r
+
+
+def cmp_opt(d, name, tok, res, exact_needed, case, scale=1.0, none_enum="value"):
+    """compare one optional float of the model's reply with the implementation's call result"""
+    if res[0] == "err":
+        if not (tok == "none" and res[1] == none_enum):
+            d.append("%s impl raised %s model %s" % (name, res[1], tok))
+        return
+    if tok == "none":
+        d.append("%s model none impl %r" % (name, res[1])); return
+    mv = common.b2f(tok)
+    if same_float(mv, res[1]):
+        return
+    if exact_needed:
+        d.append("%s (exact) model %r impl %r" % (name, mv, res[1]))
+    elif close(mv, res[1], scale):
+        case.tol_used += 1
+    else:
+        d.append("%s model %r impl %r" % (name, mv, res[1]))
+
+
+def case_stats2(spec):
+    case = Case(spec)
+    ms = spec["pm"]; exact = spec["exact"]; e = spec["f"]; tol = spec["tol"]; vs = spec["vs"]
+    f = lambda v: dsl.ev(e, v)
+    names = ("max", "min", "ptp", "essmax", "essmin", "essptp")
+    allx = [x for m in ms for x in m[1]]
+    yscale = max([1.0] + [abs(f((x,))) for x in allx]) ** 2
+    # ---- every factor on its own
+    per = []
+    for i, m in enumerate(ms):
+        M = build_measure(m)
+        g = {"max": call(lambda: float(M.maximum(f))), "min": call(lambda: float(M.minimum(f))),
+             "ptp": call(lambda: float(M.ptp(f))), "essmax": call(lambda: float(M.ess_maximum(f, tol))),
+             "essmin": call(lambda: float(M.ess_minimum(f, tol))), "essptp": call(lambda: float(M.ess_ptp(f, tol))),
+             "expect": call(lambda: float(M.expect(f))), "expectvar": call(lambda: float(M.expect_var(f))),
+             "support": call(lambda: [float(v) for v in M.support(tol)]),
+             "sindex": call(lambda: [int(v) for v in M.support_index(tol)])}
+        per.append(g)
+
+        def cmpm(r, g=g):
+            if r[0] != "ok":
+                return "model %r" % (r,)
+            kv = r[1]; d = []
+            for k in names:
+                cmp_opt(d, k, kv[k], g[k], True, case)
+            cmp_opt(d, "expect", kv["expect"], g["expect"], exact, case, math.sqrt(yscale))
+            cmp_opt(d, "expectvar", kv["expectvar"], g["expectvar"], False, case, yscale)
+            if g["support"][0] != "ok" or kv["support"] == "none" or not same_vec(floats_of(kv["support"]), g["support"][1]):
+                d.append("support model %r impl %r" % (kv["support"], g["support"]))
+            if g["sindex"][0] != "ok" or [int(t) for t in kv["sindex"]] != g["sindex"][1]:
+                d.append("support_index model %r impl %r" % (kv["sindex"], g["sindex"]))
+            return "; ".join(d) if d else None
+        case.ask("mstats2 (m %s) (f %s) (tol %s)" % (m_sexp(m), dsl.expr_sexp(e), f2b(tol)), "measure statistics", g, cmpm)
+        # monitor: the definitions, on this factor
+        ys = [f((x,)) for x in m[1]]
+        sup = [j for j, w in enumerate(m[0]) if w > tol]
+        ysup = [ys[j] for j in sup]
+
+        def chk(name, got, vals, fn):
+            if not vals:
+                if got[0] != "err":
+                    case.fail("stats2/%s-should-raise" % name, "measure.%s returned %r on an empty (support of a) measure %r" % (name, got, m))
+                return
+            want = fn(vals)
+            if got[0] != "ok" or not same_float(got[1], want):
+                case.fail("stats2/measure-%s" % name, "measure.%s = %r, expected %r over f-values %r (measure %r, tol %r)" % (name, got, want, vals, m, tol))
+        chk("maximum", g["max"], ys, max); chk("minimum", g["min"], ys, min)
+        chk("ptp", g["ptp"], ys, lambda v: max(v) - min(v))
+        chk("ess_maximum", g["essmax"], ysup, max); chk("ess_minimum", g["essmin"], ysup, min)
+        chk("ess_ptp", g["essptp"], ysup, lambda v: max(v) - min(v))
+        if g["support"] != ("ok", [m[1][j] for j in sup]) or g["sindex"] != ("ok", sup):
+            if not (g["support"][0] == "ok" and same_vec(g["support"][1], [m[1][j] for j in sup]) and g["sindex"] == ("ok", sup)):
+                case.fail("stats2/measure-support", "measure.support(%r)/support_index = %r / %r, expected indices %r" % (tol, g["support"], g["sindex"], sup))
+        wq = [frac(w) for w in m[0]]; sw = sum(wq, Fraction(0))
+        if m[0] and sw != 0 and all(w >= 0 for w in m[0]):
+            yq = [frac(y) for y in ys]
+            E = sum((a * b for a, b in zip(wq, yq)), Fraction(0)) / sw
+            V = sum((a * (b - E) ** 2 for a, b in zip(wq, yq)), Fraction(0)) / sw
+            if g["expect"][0] != "ok" or not ((exact and same_float(g["expect"][1], float(E))) or near_frac(g["expect"][1], E, math.sqrt(yscale))
+                                                or (exact and g["expect"][1] == 0.0 and E == 0)):
+                case.fail("stats2/measure-expect", "measure.expect(f) = %r but sum(w*f)/sum(w) = %r (%r)" % (g["expect"], float(E), m))
+            if g["expectvar"][0] != "ok" or not near_frac(g["expectvar"][1], V, yscale):
+                case.fail("stats2/measure-expect_var", "measure.expect_var(f) = %r but the weighted variance is %r (%r)" % (g["expectvar"], float(V), m))
+    # ---- the product measure: max / min over the factors' own statistics
+    c = build_pm(ms)
+    before = obs_pm(c)
+    G = {"max": call(lambda: float(c.maximum(f))), "min": call(lambda: float(c.minimum(f))), "ptp": call(lambda: float(c.ptp(f))),
+         "essmax": call(lambda: float(c.ess_maximum(f, tol))), "essmin": call(lambda: float(c.ess_minimum(f, tol))),
+         "essptp": call(lambda: float(c.ess_ptp(f, tol))), "cm": call(lambda: [float(v) for v in c.center_mass])}
+    xscale = max([1.0] + [abs(x) for x in allx])
+
+    def cmpp(r):
+        if r[0] != "ok":
+            return "model %r" % (r,)
+        kv = r[1]; d = []
+        for k in names:
+            cmp_opt(d, k, kv[k], G[k], True, case)
+        if G["cm"][0] != "ok":
+            d.append("center_mass impl raised %s" % G["cm"][1])
+        else:
+            mm = floats_of(kv["cm"])
+            if not same_vec(mm, G["cm"][1]):
+                if exact or len(mm) != len(G["cm"][1]) or not all(close(a, b, xscale) for a, b in zip(mm, G["cm"][1])):
+                    d.append("center_mass model %r impl %r" % (mm, G["cm"][1]))
+                else:
+                    case.tol_used += 1
+        return "; ".join(d) if d else None
+    case.ask("pmstats2 (c %s) (f %s) (tol %s)" % (pm_sexp(ms), dsl.expr_sexp(e), f2b(tol)), "product statistics", G, cmpp)
+    for k, agg in (("max", max), ("min", min), ("ptp", max), ("essmax", max), ("essmin", min), ("essptp", max)):
+        parts = [g[k] for g in per]
+        if not parts or any(p_[0] != "ok" for p_ in parts):
+            if G[k][0] != "err":
+                case.fail("stats2/product-%s-should-raise" % k, "product_measure.%s returned %r although %s" % (k, G[k], "there is no factor" if not parts else "a factor's own statistic raises"))
+        else:
+            want = agg([p_[1] for p_ in parts])
+            if G[k][0] != "ok" or not same_float(G[k][1], want):
+                case.fail("stats2/product-%s" % k, "product_measure.%s = %r, expected %r from the factors' %r" % (k, G[k], want, [p_[1] for p_ in parts]))
+    if ms and all(m[1] for m in ms):
+        # the documented meaning: extreme value of f over ALL positions of ALL factors
+        ally = [f((x,)) for x in allx]
+        if G["max"] != ("ok", max(ally)) and not (G["max"][0] == "ok" and same_float(G["max"][1], max(ally))):
+            case.fail("stats2/product-maximum-all", "maximum(f) = %r, the greatest f over all factor positions is %r" % (G["max"], max(ally)))
+        if not (G["min"][0] == "ok" and same_float(G["min"][1], min(ally))):
+            case.fail("stats2/product-minimum-all", "minimum(f) = %r, the least f over all factor positions is %r" % (G["min"], min(ally)))
+        case.nontrivial = len(ms) >= 2
+    if not same_pm(obs_pm(c), before):
+        case.fail("aliasing/readonly-op-mutates", "maximum/minimum/ptp/ess_* changed the measure: %r -> %r" % (before, obs_pm(c)))
+    # ---- center_mass setter of the product measure
+    c2 = build_pm(ms)
+    def setcm():
+        c2.center_mass = list(vs)
+        return obs_pm(c2)
+    r = call(setcm)
+
+    def cmpc(rep):
+        if r[0] == "err":
+            return None if (rep[0] == "err" and rep[1] == r[1]) else "impl raised %s, model %r" % (r[1], rep)
+        if rep[0] != "ok":
+            return "impl returned, model %r" % (rep,)
+        got = pm_of_reply(rep[1]["c"])
+        if same_pm(got, r[1]):
+            return None
+        if exact:
+            return "measure (exactness regime) model %r impl %r" % (got, r[1])
+        sc = max([xscale] + [abs(v) for v in vs])
+        if len(got) == len(r[1]) and all(same_vec(a[0], b[0]) and len(a[1]) == len(b[1]) and all(close(p, q, sc) or (p != p and q != q) for p, q in zip(a[1], b[1])) for a, b in zip(got, r[1])):
+            case.tol_used += 1
+            return None
+        return "measure model %r impl %r" % (got, r[1])
+    case.ask("setcm (c %s) (v %s)" % (pm_sexp(ms), fl(vs)), "center_mass setter", r, cmpc)
+    if len(vs) < len(ms):
+        if r[0] != "err":
+            case.fail("stats2/center_mass-short-should-raise", "center_mass = %r on %d factors returned %r" % (vs, len(ms), r))
+        case.tag("stats2:center_mass-short")
+    elif r[0] != "ok":
+        case.fail("stats2/center_mass-raises", "center_mass = %r raised %s" % (vs, r[1]))
+    else:
+        for i, (m, m2) in enumerate(zip(ms, r[1])):
+            if not same_vec(m2[0], m[0]):
+                case.fail("stats2/center_mass-changes-weights", "factor %d: weights %r -> %r" % (i, m[0], m2[0]))
+            wq = [frac(w) for w in m[0]]; sw = sum(wq, Fraction(0))
+            if m[0] and sw > 0 and all(w >= 0 for w in m[0]) and all(math.isfinite(t) for t in m2[1]):
+                got = sum((a * frac(b) for a, b in zip(wq, m2[1])), Fraction(0)) / sw
+                if abs(got - frac(vs[i])) > Fraction(RTOL) * Fraction(max(xscale, abs(vs[i]))):
+                    case.fail("stats2/center_mass-not-achieved", "factor %d: center_mass = %r gives weighted mean %r" % (i, vs[i], float(got)))
+        case.tag("stats2:center_mass-set")
+    # ---- measure.normalize()
+    if ms:
+        m = ms[spec["norm_i"] % len(ms)]
+        M = build_measure(m)
+        def norm():
+            M.normalize()
+            return obs_m(M)
+        rn = call(norm)
+
+        def cmpn(rep):
+            if rn[0] == "err":
+                return None if (rep[0] == "err" and rep[1] == rn[1]) else "impl raised %s, model %r" % (rn[1], rep)
+            if rep[0] != "ok":
+                return "impl returned, model %r" % (rep,)
+            gm = [floats_of(rep[1]["m"][0]), floats_of(rep[1]["m"][1])]
+            if same_vec(gm[0], rn[1][0]) and same_vec(gm[1], rn[1][1]):
+                return None
+            ok = len(gm[0]) == len(rn[1][0]) and all(close(a, b) or (a != a and b != b) for a, b in zip(gm[0], rn[1][0])) and \
+                all(close(a, b, xscale) or (a != a and b != b) for a, b in zip(gm[1], rn[1][1]))
+            if ok:
+                case.tol_used += 1
+                return None
+            return "normalize model %r impl %r" % (gm, rn[1])
+        case.ask("normalize (m %s)" % m_sexp(m), "measure.normalize", rn, cmpn)
+        sw = sum((frac(w) for w in m[0]), Fraction(0))
+        if rn[0] != "ok":
+            case.fail("stats2/normalize-raises", "normalize raised %s on %r" % (rn[1], m))
+        elif m[0] and sw > 0 and all(w >= 0 for w in m[0]):
+            w1, x1 = rn[1]
+            t1 = sum((frac(w) for w in w1), Fraction(0))
+            if len(w1) != len(m[0]) or abs(t1 - 1) > Fraction(RTOL):
+                case.fail("stats2/normalize-mass", "after normalize() the weights %r sum to %r" % (w1, float(t1)))
+            else:
+                m0 = sum((frac(a) * frac(b) for a, b in zip(m[0], m[1])), Fraction(0)) / sw
+                m1 = sum((frac(a) * frac(b) for a, b in zip(w1, x1)), Fraction(0)) / t1
+                if abs(m1 - m0) > Fraction(RTOL) * Fraction(xscale):
+                    case.fail("stats2/normalize-mean", "normalize() moved the centre of mass %r -> %r" % (float(m0), float(m1)))
+            case.tag("stats2:normalize")
+    case.tag("shape:%d-factors" % len(ms))
+    if any(not m[0] for m in ms):
+        case.tag("stats2:empty-factor")
+    if any(m[0] and not any(w > tol for w in m[0]) for m in ms):
+        case.tag("stats2:factor-without-support")
+    case.tag("regime:exact" if exact else "regime:general")
+    return case
+
+
+def gen_stats2(rng):
+    exact = rng.random() < 0.5
+    sizes = gen_shape(rng)
+    neg = (not exact) and rng.random() < 0.08
+    ms = gen_pm(rng, sizes, exact, neg)
+    if sizes and rng.random() < 0.1:            # a factor without support
+        i = rng.randrange(len(sizes))
+        ms[i][0] = [0.0] * len(ms[i][0])
+    e = gen_f(rng, 1, exact)
+    if rng.random() < 0.2 and any(m[1] for m in ms):      # exact ties of f between two positions
+        e = ("abs", ("-", ("x", 0), ("c", rng.choice([x for m in ms for x in m[1]]))))
+    k = rng.random()
+    allw = [w for m in ms for w in m[0]]
+    tol = 0.0 if k < 0.5 or not allw else (rng.choice(allw) if k < 0.85 else rng.choice([0.125, 0.25, 0.5]))
+    nv = len(sizes) + rng.choice([0, 0, 0, 1, -1, 2])
+    vs = [gen_pos(rng, exact) for _ in range(max(nv, 0))]
+    return {"kind": "stats2", "exact": exact, "pm": ms, "f": e, "tol": tol, "vs": vs, "norm_i": rng.randrange(8)}
+
+
+# ------------------------------------------------------------------ kind: values (scenario pof_value / mean_value / set_mean_value)
+def case_values(spec):
+    case = Case(spec)
+    ms = spec["pm"]; vals = spec["values"]; exact = spec["exact"]; e = spec["f"]; target = spec["m"]
+    fv = lambda y: dsl.ev(e, [y])
+    s = build_scen(ms, vals)
+    before = obs_pm(s)
+    W = [float(v) for v in s.weights]
+    g = {"pofv": call(lambda: float(s.pof_value(fv))), "meanv": call(lambda: float(s.mean_value()))}
+    s2 = build_scen(ms, vals)
+    def setm():
+        s2.set_mean_value(target)
+        return [float(v) for v in s2.values]
+    g["setmean"] = call(setm)
+    vscale = max([1.0] + [abs(v) for v in vals] + [abs(target)])
+
+    def cmp(r):
+        if r[0] != "ok":
+            return "model %r" % (r,)
+        kv = r[1]; d = []
+        cmp_opt(d, "pof_value", kv["pofv"], g["pofv"], exact, case)
+        cmp_opt(d, "mean_value", kv["meanv"], g["meanv"], exact, case, vscale)
+        if g["setmean"][0] != "ok":
+            d.append("set_mean_value impl raised %s" % g["setmean"][1])
+        else:
+            mv = floats_of(kv["setmean"])
+            if not same_vec(mv, g["setmean"][1]):
+                if exact or len(mv) != len(g["setmean"][1]) or not all(close(a, b, vscale) or (a != a and b != b) for a, b in zip(mv, g["setmean"][1])):
+                    d.append("set_mean_value model %r impl %r" % (mv, g["setmean"][1]))
+                else:
+                    case.tol_used += 1
+        return "; ".join(d) if d else None
+    case.ask("vstats (c %s) (values %s) (f %s) (m %s)" % (pm_sexp(ms), fl(vals), dsl.expr_sexp(e), f2b(target)),
+             "scenario value statistics", g, cmp)
+    for k in g:
+        if g[k][0] != "ok":
+            case.fail("values/raises/" + k, "%s raised %s (values %r, weights %r)" % (k, g[k][1], vals, W))
+    wq = [frac(w) for w in W]
+    # pof_value: the weight of {f(value) <= 0} over zip(values, weights)
+    if g["pofv"][0] == "ok":
+        F = sum((a for a, y in zip(wq, vals) if fv(y) <= 0.0), Fraction(0))
+        if not ((exact and same_float(g["pofv"][1], float(F))) or (not exact and near_frac(g["pofv"][1], F))):
+            case.fail("values/pof_value", "pof_value(f) = %r but the weight of {f(value) <= 0} is %r" % (g["pofv"][1], float(F)))
+        if any(fv(y) == 0.0 and w != 0.0 for y, w in zip(vals, W)):
+            case.tag("values:pof-tie-at-zero")
+    sw = sum(wq, Fraction(0))
+    if len(vals) == len(W) and W and sw > 0 and all(w >= 0 for w in W):
+        mq = sum((a * frac(b) for a, b in zip(wq, vals)), Fraction(0)) / sw
+        if g["meanv"][0] == "ok" and not ((exact and same_float(g["meanv"][1], float(mq))) or near_frac(g["meanv"][1], mq, vscale)
+                                          or (exact and g["meanv"][1] == 0.0 and mq == 0)):
+            case.fail("values/mean_value", "mean_value() = %r but sum(w*v)/sum(w) = %r" % (g["meanv"][1], float(mq)))
+        if g["setmean"][0] == "ok":
+            nv = g["setmean"][1]
+            if len(nv) != len(vals):
+                case.fail("values/set_mean_value-count", "set_mean_value changed the number of values %d -> %d" % (len(vals), len(nv)))
+            elif all(math.isfinite(v) for v in nv):
+                got = sum((a * frac(b) for a, b in zip(wq, nv)), Fraction(0)) / sw
+                if abs(got - frac(target)) > Fraction(RTOL) * Fraction(vscale):
+                    case.fail("values/set_mean_value-not-achieved", "set_mean_value(%r) gives weighted mean %r" % (target, float(got)))
+                # a pure shift: differences between values are kept
+                if len(vals) >= 2 and abs((frac(nv[0]) - frac(nv[-1])) - (frac(vals[0]) - frac(vals[-1]))) > Fraction(RTOL) * Fraction(vscale):
+                    case.fail("values/set_mean_value-not-a-shift", "set_mean_value changed value differences: %r -> %r" % (vals, nv))
+        case.nontrivial = len(vals) >= 2
+        case.tag("values:one-per-point")
+    else:
+        case.tag("values:length-mismatch-or-degenerate")
+    if not same_pm(obs_pm(s2), before) or not same_pm(obs_pm(s), before):
+        case.fail("values/set_mean_value-changes-measures", "value statistics changed the measures: %r -> %r" % (before, obs_pm(s2)))
+    if not same_vec([float(v) for v in s.values], vals):
+        case.fail("aliasing/readonly-op-mutates", "pof_value/mean_value changed the values")
+    case.tag("regime:exact" if exact else "regime:general")
+    return case
+
+
+def gen_values(rng):
+    exact = rng.random() < 0.5
+    sizes = gen_shape(rng, allow_zero=rng.random() < 0.3)
+    ms = gen_pm(rng, sizes, exact)
+    total = 1
+    for s in sizes:
+        total *= s
+    k = rng.random()
+    nv = total if k < 0.75 else max(0, total + rng.choice([-1, 1, 2, -2]))
+    vals = [gen_pos(rng, exact) for _ in range(nv)]
+    e = gen_f(rng, 1, exact)
+    if vals and rng.random() < 0.35:
+        e = ("-", ("x", 0), ("c", rng.choice(vals)))          # exact zero of f at one of the values (`<=` tie)
+        if rng.random() < 0.3:
+            e = ("neg", e)
+    return {"kind": "values", "exact": exact, "pm": ms, "values": vals, "f": e, "m": gen_pos(rng, exact)}
 
 
 KINDS = {"roundtrip": (gen_roundtrip, case_roundtrip), "update": (gen_update, case_update),
          "scenario": (gen_scenario, case_scenario), "helpers": (gen_helpers, case_helpers),
-         "measure": (gen_measure_case, case_measure), "impose": (gen_impose, case_impose)}
+         "measure": (gen_measure_case, case_measure), "impose": (gen_impose, case_impose),
+         "stats2": (gen_stats2, case_stats2), "values": (gen_values, case_values)}
 
 
 def all_shapes(tier):
-    """every shape with <= 3 factors of 1..4 points (quick) / <= 4 factors of 0..5 points (thorough)"""
+    """every shape with <= 3 factors of 1..4 points + the small shapes with empty factors (quick) /
+    <= 4 factors of 0..5 points (thorough)"""
     import itertools
     maxf, sizes = (3, [1, 2, 3, 4]) if tier == "quick" else (4, [0, 1, 2, 3, 4, 5])
     out = []
     for nf in range(maxf + 1):
         out.extend(list(t) for t in itertools.product(sizes, repeat=nf))
+    if tier == "quick":      # shapes with empty factors: every one with <= 2 factors of 0..3 points, and a few longer ones
+        for nf in (1, 2):
+            out.extend(list(t) for t in itertools.product([0, 1, 2, 3], repeat=nf) if 0 in t)
+        out.extend([[0, 2, 1], [2, 0, 1], [2, 1, 0], [0, 0, 2], [1, 0, 0, 3]])
     return out
 
 
@@ -1010,7 +1490,7 @@ def shape_spec(sizes):
 
 def gen_spec(rng):
     kinds = ["roundtrip"] * 5 + ["update"] * 3 + ["scenario"] * 2 + ["helpers"] * 3 + ["measure"] * 3
-    kinds += ["impose"] * 2
+    kinds += ["impose"] * 3 + ["stats2"] * 3 + ["values"] * 2
     kind = rng.choice(kinds)
     return KINDS[kind][0](rng)
 
@@ -1120,15 +1600,21 @@ def main(tier, seed):
     def search_more():
         r = framework.run_shards("c19", "run_shard", PID, seed + 7919, 32, 600, tier, extra={"nshards": 32})
         return r["findings"]
-    rule = ("cases: product measures with 0-4 factors of 0-5 points (unequal sizes, size 1, empty factor), weights incl. zeros "
-            "(a few negative), duplicate positions; exactness regime (small dyadics) and general floats; streams: roundtrip "
-            "(flatten/load/unflatten/compose/decompose/pack/unpack/positions setter + weights/positions/npts/mass/expect/"
-            "expect_var/pof/support with DSL test functions incl. exact zeros and support tolerances equal to a weight), "
-            "update (product_measure and scenario; exact, surplus and short parameter lists), scenario (constructor, flatten "
-            "all/not all, load), helpers (malformed shapes: _nested/_nested_split/unflatten/compose/_unpack error enum), measure "
-            "(center_mass/range/var getters and setters), impose (constraints.impose_measure). non-trivial = the clause under "
-            "test is exercised: >= 2 factors and >= 2 points (roundtrip), len(params) >= 2*sum(pts) on a non-empty shape "
-            "(update), values present (scenario), ill-fitting input (helpers), non-degenerate setter (measure)")
+    rule = ("cases: product measures with 0-4 factors of 0-5 points (unequal sizes, size 1, one or several empty factors in front / "
+            "in the middle / at the end), weights incl. zeros (a few negative), duplicate positions; exactness regime (small dyadics) "
+            "and general floats; streams: roundtrip (flatten/load/unflatten/compose/decompose/pack/unpack/positions setter + "
+            "weights/positions/npts/mass/expect/expect_var/pof/support with DSL test functions incl. exact zeros and support tolerances "
+            "equal to a weight), update (product_measure and scenario; EVERY parameter length: exact, surplus, a prefix of the values, "
+            "prefixes ending at / inside a weights or positions block; shapes with empty factors), scenario (constructor, flatten all/"
+            "not all, load), helpers (malformed shapes: _nested/_nested_split/unflatten/compose/_unpack error enum), measure "
+            "(center_mass/range/var getters and setters), impose (constraints.impose_measure: one dict or a tuple of two dicts, star / "
+            "disjoint pair sets, negative and out-of-range indices, size-1 factors, all the weight on one point, surplus parameters), "
+            "stats2 (measure and product_measure maximum/minimum/ptp/ess_* with ties and factors without support, measure expect/"
+            "expect_var/support/support_index, product center_mass getter and setter incl. too short a list, measure.normalize), values "
+            "(scenario pof_value with exact zeros, mean_value, set_mean_value; value lists shorter/longer than the product). non-trivial "
+            "= the clause under test is exercised: >= 2 factors and >= 2 points (roundtrip), at least one factor addressed (update), "
+            "values present (scenario), ill-fitting input (helpers), non-degenerate setter (measure), a non-degenerate addressed factor "
+            "(impose), >= 2 factors (stats2), >= 2 values on a non-degenerate product (values)")
     tb = ["Lean 4.33 kernel; axioms per theorem listed under coverage.theorems",
           "hand-written model Model/Discrete.lean tied to mystic.math.discrete / measures by this differential run only",
           "sum-like statistics (mass, center_mass, expect, pof) are compared bit-exactly in the exactness regime and with rel 1e-9 "
@@ -1141,5 +1627,6 @@ def main(tier, seed):
                    "IEEE binary64 + - * / sqrt and comparisons agree between Lean Float and CPython/numpy",
                    "field theorems (expect/expect_var/mass/setters) are about an ordered field, not about rounding"]
     extra_cov = {"exhaustive_subenumeration": "round-trip/product-structure clauses on EVERY shape with %s (%d shapes, deterministic payloads)"
-                 % ("<= 3 factors of 1..4 points" if tier == "quick" else "<= 4 factors of 0..5 points", len(all_shapes(tier)))}
+                 % ("<= 3 factors of 1..4 points, plus every shape with an empty factor and <= 2 factors of 0..3 points" if tier == "quick"
+                    else "<= 4 factors of 0..5 points", len(all_shapes(tier)))}
     return framework.finish(PID, tier, seed, t0, proof, run, rule, tb, assumptions, extra_cov=extra_cov, search_more=search_more)
